@@ -45,7 +45,7 @@ FLOORS = {"quick": {"compared": 4000, "compared_ok": 1200,
           "thorough": {"compared": 200000, "compared_ok": 60000,
                        "compared_reject": 40000, "unbalanced": 20000,
                        "define_texts": 20000}}
-N_MODELS = {"quick": 300, "thorough": 10000}
+N_MODELS = {"quick": 700, "thorough": 10000}
 TEXTS = {"quick": 8, "thorough": 20}
 N_DEFINE = {"quick": 1500, "thorough": 40000}
 
